@@ -418,6 +418,11 @@ class Mp4Atom(ObjectWithFields):
             hdr = Mp4Atom.parse(src, parent, options=options)
             if hdr is None:
                 break
+            if end is not None and (hdr['position'] + hdr['size']) > end:
+                # a corrupt size field; parsing on would read sibling boxes
+                # (or loop over counts taken from the wrong place)
+                raise ValueError(
+                    f'{prefix}box "{hdr["atom_type"]}" of {hdr["size"]} bytes overruns its parent')
             try:
                 Box = fourcc.BOXES[hdr['atom_type']]
             except KeyError:
